@@ -418,7 +418,8 @@ theorem C11_backpressure_partial (envs : List FdEnv) :
     -- 5. after `quit`: one blocking write of the whole buffer, whatever the capacity
     (∀ (w : W) (c : Cli), c.quit = true → c.toBuf ≠ [] → ¬ capOf w c.fd < 0 →
         handleWrite w c =
-          ({ w with sys := w.sys ++ [Sys.write c.fd c.toBuf false (decide (capOf w c.fd < (c.toBuf.length : Int)))] },
+          (setCap { w with sys := w.sys ++ [Sys.write c.fd c.toBuf false (decide (capOf w c.fd < (c.toBuf.length : Int)))] } c.fd
+             (if capOf w c.fd < (c.toBuf.length : Int) then 0 else capOf w c.fd - (c.toBuf.length : Int)),
            { c with blocking := true, toBuf := [] })) :=
   ⟨fun w c0 => ⟨(clientPass_iso w c0 _).imp fun _ h => h.1, fun g hg => cliStep_other envs w c0 g hg⟩,
    fun x l w h1 h2 => foldl_cliStep_frame envs x l w h1 h2,
